@@ -110,11 +110,14 @@ AllSpellings ==
           xy \in {p \in CoordAxes \X CoordAxes : Dot(p[1], p[2]) = 0}, sx \in {1, 2}, m \in {0, 1}}
   \cup {Spell("zaxis", I3, Z3, 0, Z3, Z3, Z3, VScl(sz, z)) : z \in CoordAxes, sz \in {1, 3}}
 \* (constant level: evaluated once) every spelling denotes a rotation of the lattice, and every rotation has them
-SpellingsOf == [g \in Rot24 |-> {s \in AllSpellings : RotOf(s) = g}]
-ASSUME \A s \in AllSpellings : RotOf(s) \in Rot24
-ASSUME \A g \in Rot24 : \E s \in SpellingsOf[g] : s.k = "euler"
-ASSUME \A g \in Rot24 : \E s \in SpellingsOf[g] : s.k = "axisangle"
-ASSUME \A g \in Rot24 : \E s \in SpellingsOf[g] : s.k = "xyaxes"
+\* (the tables are built only by the configurations that respell: they cost seconds at start-up)
+Spelling == "Respell" \in Rewrs
+SpellRot == IF Spelling THEN [s \in AllSpellings |-> RotOf(s)] ELSE << >>
+SpellingsOf == [g \in Rot24 |-> IF Spelling THEN {s \in AllSpellings : SpellRot[s] = g} ELSE {}]
+ASSUME Spelling => \A s \in AllSpellings : SpellRot[s] \in Rot24
+ASSUME Spelling => \A g \in Rot24 : \E s \in SpellingsOf[g] : s.k = "euler"
+ASSUME Spelling => \A g \in Rot24 : \E s \in SpellingsOf[g] : s.k = "axisangle"
+ASSUME Spelling => \A g \in Rot24 : \E s \in SpellingsOf[g] : s.k = "xyaxes"
 \* the rotations in a fixed order: six hand-picked ones first (identity, quarter turn about z, half turn about x,
 \* third of a turn about (1,1,1), three quarter turns about y, half turn about (1,0,1)), then the other 18
 RECURSIVE SetToSeq(_)
@@ -311,7 +314,7 @@ Next ==
                                             \/ \E c \in {"c1"} : HoistClass(i, c)
                                             \/ SinkClass(i)
                                             \/ \E fp \in FramePoses, h \in BOOLEAN : WrapFrame(i, fp, h)
-                                            \/ \E m \in {2, 3} : EditMass(i, m)
+                                            \/ \E m \in {3} : EditMass(i, m)
                                             \/ Unroll(i)
   \/ ToggleAngle \/ ToggleFuse \/ ToggleDiscard
 Spec == Init /\ [][Next]_vars
@@ -341,8 +344,6 @@ EditApplied ==
 MC_AllRw == {"Respell", "ToggleAngle", "Explicitize", "Implicitize", "HoistClass", "SinkClass", "WrapFrame", "ToggleFuse",
              "ToggleDiscard", "EditMass", "Unroll"}
 MC_NoRepl == {}
-MC_OnlyUnroll == {"Unroll"}
-MC_OnlyToggle == {"ToggleAngle"}
 MC_ReplRw == {"Unroll", "WrapFrame", "ToggleAngle", "ToggleDiscard", "ToggleFuse"}
 MC_Repl1 == {<<2, <<0, 1, 0>>, 1>>}
 MC_Repl2 == {<<2, <<0, 1, 0>>, 1>>, <<3, <<1, 0, 1>>, 0>>, <<3, <<0, 2, 0>>, 3>>}
@@ -353,6 +354,7 @@ MC_V1 == {1}
 MC_V2 == {1, 2}
 MC_Rots1 == {2}
 MC_G1 == {<<"", -1, FALSE>>}
+MC_G2 == {<<"c1", -1, FALSE>>, <<"", 1, TRUE>>}
 MC_G3 == {<<"", -1, FALSE>>, <<"c1", -1, FALSE>>, <<"", 1, TRUE>>}
 MC_G4 == {<<"", -1, FALSE>>, <<"c1", -1, FALSE>>, <<"", 1, TRUE>>, <<"c1", 2, FALSE>>}
 MC_CC1 == {""}
